@@ -203,7 +203,9 @@ def gen_case(rng, cid, n, depth=None, hold=None, polite=None, allow_fifo=False, 
     eopg = exprod if (aligned and hold) else 0
     vkind = vkind or rng.choice(VALID_KINDS)
     rkind = rkind or rng.choice(READY_KINDS)
-    body = n - DRAIN
+    cap = chain_info(stages, True, True)["cap"]
+    drain = min(n // 2, max(DRAIN, 2 * cap + 12))
+    body = n - drain
     if vkind == "rand_sparse":
         v = gen_bits(rng, body, "rand", 0.15)
     elif vkind == "rand":
@@ -406,15 +408,22 @@ def oracle_case(params, evlines):
                         out_transfers=tout[max(0, k - 3):k + 2], expected=exp_ext[max(0, k - 3):k + 2]), st, obs
         if not info["has_fifo"] and len(exp_now) - len(tout) > info["cap"]:
             return dict(event=None, what=f"{len(exp_now) - len(tout)} beats in flight exceed the chain capacity {info['cap']}"), st, obs
-        # after the drain phase (consumer ready, stalls off, producer idle) everything accepted must have come out
-        drained = len(evlines) >= DRAIN and all((not parse_ev(l)["v"]) and parse_ev(l)["r"] and "1" not in parse_ev(l)["ctl"] for l in evlines[-(DRAIN - 8):])
+        # after the drain phase (consumer ready, stalls off, producer idle) everything accepted must have come out;
+        # the idle tail must be long enough for the chain's capacity (each output beat needs one ready cycle)
+        idle_tail = 0
+        for l in reversed(evlines):
+            pe = parse_ev(l)
+            if pe["v"] or not pe["r"] or "1" in pe["ctl"]:
+                break
+            idle_tail += 1
+        drained = idle_tail >= 2 * info["cap"] + 8
         if drained and info["may_deadlock"]:
             if len(tout) != len(exp_now) or (st["in_transfers"] == 0 and st["in_backpressure"] > 20):
                 obs[K_DEADLOCK] += 1
         elif drained:
             st["drained_cases"] += 1
             if len(tout) != len(exp_now):
-                return dict(event=None, what=f"after {DRAIN - 8} idle cycles with the consumer ready only {len(tout)} of {len(exp_now)} expected beats came out (beat lost or stuck)",
+                return dict(event=None, what=f"after {idle_tail} idle cycles with the consumer ready (chain capacity {info['cap']}) only {len(tout)} of {len(exp_now)} expected beats came out (beat lost or stuck)",
                             missing=exp_now[len(tout):len(tout) + 3]), st, obs
         if fs["eop_dropped"]:
             obs[K_EOP] += fs["eop_dropped"]
